@@ -1435,6 +1435,17 @@ class Translator:
         return self.finish_call(fid, X("call", fn, args), e)
 
     def devirtualize_ok(self, fid, objn, me):
+        """virtual call resolved statically: the method's class is declared final-in-this-universe by the unit
+        (opts virtual_final: no overrider of it exists in the driver TU's closed universe)"""
+        info = self.ast.finfo(fid)
+        prid = self.ast.Rcanon.get(info.get("parent"))
+        if prid is None:
+            return False
+        name = self.ast.R[prid]["name"]
+        for pat in self.opts.get("virtual_final", ()):
+            if pat in name:
+                self.rule("devirtualized(closed universe)")
+                return True
         return False
 
     def virtual_call(self, fid, e, objn, me, args):
